@@ -3,7 +3,7 @@ from ..engine import rule
 from ..db import (walk, peel, peel_casts, render, callee, path_ends, short_path, is_call, call_args, lit_int,
                   diverges, exit_kind, path_conditions, atoms, AnchorMissing, local_name)
 from ..guards import guarded_exits, eval3, mentions, is_call_to, cmp_atom, holds
-from ..origins import origins, derived_fns, unwrap_try, field_writes, index as oindex
+from ..origins import origins, derived_fns, unwrap_try, field_writes, index as oindex, owners
 from ..uses import consumer, is_result_ty
 from .. import cg
 
@@ -81,31 +81,34 @@ def limits(db, ctx):
     ctx.ob("start_build|first-stmt-rejects-too-long", ok,
            "start_build's first statement is `%s`; rejects(len=MAX,len=MAX+1)=%s on self.original" % (render(st0)[:120] if st0 else None, prof), fn=sb)
     cm = db.one("commit", "InputBuffer")
-    stmts = cm.hir.get("stmts", [])
-    guard_i = swap_i = None
-    for i, st in enumerate(stmts):
-        e = st.get("e") or st.get("init") or {}
-        if e.get("k") == "If" and exit_kind(e["then"]) == "err" and mentions(e["cond"], lambda x: x.get("k") == "Path" and path_ends(x.get("path"), "REALLY_MAX_LENGTH")):
-            isb = lambda x: x.get("k") == "Path" and path_ends(x.get("path"), "REALLY_MAX_LENGTH")
-            prof = [bool(eval3(e["cond"], _bound_ev(isb, p))) for p in (0, 1)]
-            if prof == [False, True]:
-                guard_i = i
-        if swap_i is None and mentions(e, is_call_to("mem::swap")):
-            swap_i = i
-    ctx.ob("commit|reject-before-install", guard_i is not None and swap_i is not None and guard_i < swap_i,
-           "commit: REALLY_MAX_LENGTH rejection at statement %s, first mem::swap at statement %s (guard must precede)" % (guard_i, swap_i), fn=cm)
+    # every mem::swap (the install) is unreachable when size == LIMIT+1 and reachable when size == LIMIT, however the decision
+    # is written (early return / if-else / named boolean)
+    from ..flow import holds_at
+    isb = lambda x: x.get("k") == "Path" and path_ends(x.get("path"), "REALLY_MAX_LENGTH")
+    swaps = [c for c, _ in walk(cm.hir) if is_call(c) and path_ends(callee(c), "mem::swap")]
+    prof = []
+    guard_conds = []
+    for c in swaps:
+        pcs = path_conditions(c["id"], cm.hir) or []
+        prof.append((holds_at(pcs, _bound_ev(isb, 0)), holds_at(pcs, _bound_ev(isb, 1))))
+        guard_conds += [cn for cn, pol in pcs if isinstance(cn, dict) and mentions(cn, isb)]
+    ok_g = bool(swaps) and all(at0 is not False and at1 is False for at0, at1 in prof)
+    ctx.ob("commit|reject-before-install", ok_g,
+           "commit: %d mem::swap install(s); reachable at (size=LIMIT, size=LIMIT+1) = %s (must be reachable / unreachable: the REALLY_MAX_LENGTH "
+           "rejection dominates the install)" % (len(swaps), prof), fn=cm)
     # the compared size must be the value resolve_edits returns: it stops copying (and returns early) once the running size
     # exceeds the limit, so the length of the partially written buffer is NOT the size of the rewritten text
     src_ok = False
     shown = None
-    if guard_i is not None:
-        e = stmts[guard_i].get("e") or stmts[guard_i].get("init")
-        c = cmp_atom(e["cond"])
-        if c:
-            side = c[1] if not (peel_casts(c[1]).get("k") == "Path" and path_ends(peel_casts(c[1]).get("path"), "REALLY_MAX_LENGTH")) else c[2]
-            og = origins(db, cm, side, depth=0)
-            shown = sorted(short_path(o[1]) for o in og if o[0] == "call") + sorted("field " + o[2] for o in og if o[0] == "field")
-            src_ok = any(o[0] == "call" and path_ends(o[1], "resolve_edits") for o in og) and not any(o[0] == "field" for o in og)
+    from ..db import walk_x
+    for cn in guard_conds:
+        for a, _ in walk_x(cn):
+            c = cmp_atom(a) if a.get("k") == "Binary" else None
+            if c and (isb(peel_casts(c[1])) or isb(peel_casts(c[2]))):
+                side = c[2] if isb(peel_casts(c[1])) else c[1]
+                og = origins(db, cm, side, depth=0)
+                shown = sorted(short_path(o[1]) for o in og if o[0] == "call") + sorted("field " + o[2] for o in og if o[0] == "field")
+                src_ok = any(o[0] == "call" and path_ends(o[1], "resolve_edits") for o in og) and not any(o[0] == "field" for o in og)
     ctx.ob("commit|compares-returned-size", src_ok, "the size compared with REALLY_MAX_LENGTH comes from %s (must be the return value of resolve_edits, which "
                                                     "returns early with a partially filled buffer when the limit is exceeded)" % shown, fn=cm)
     early = any(ek == "ret" and pol and "REALLY_MAX_LENGTH" in render(cond) for ifn, cond, pol, ek, ps in guarded_exits(re_fn_hir(db)))
@@ -232,10 +235,12 @@ def errors(db, ctx):
                     continue
                 what = mac
             allowed = None
+            own = f
             for (suffix, w), reason in ALLOW.items():
-                if f.short().endswith(suffix) and w == what:
-                    allowed = reason
-            ctx.ob("%s|%s" % (f.short(), what), allowed is not None,
+                for o in owners(db, f):
+                    if o.short().endswith(suffix) and w == what and allowed is None:
+                        allowed, own = reason, o
+            ctx.ob("%s|%s" % (own.short(), what), allowed is not None,
                    "%s: %s at %s reachable from the analysis API via %s%s" % (
                        f.short(), what, s["sp"], " → ".join(g.path(entries, k) or []),
                        (" — allowed: " + allowed) if allowed else " — NOT allowed"), fn=f, site=s["sp"])
